@@ -1,10 +1,199 @@
 /-
-  C18 — property theorems only (helper lemmas live in Lemmas*.lean).
+  C18 — property theorems only (helper lemmas live in Lemmas*.lean, definitions in Theory.lean).
+
+  Clauses of the property and the theorem that covers each:
+    * ties are broken the same way every time, for every map iteration order
+        -> refresh_order_independent, refresh_is_lexicographic_top2
+    * no advertisement ever lists a destination whose best cost is at or above infinity
+        -> advert_never_infinite   (invariant over every history of exchanges and dead-neighbour events)
+    * fixed point: cost = hop distance (< 16), next hop on a shortest path, deterministic tie-break,
+      unreachable destinations withdrawn
+        -> fixed_point_is_shortest_path, fixed_point_unreachable_withdrawn
+    * reached within a bounded number of exchanges from ANY state (hence after any loss sequence)
+        -> converges_within_rounds
 -/
-import NdnVerif.C18.Model
+import NdnVerif.C18.LemmasSP
+import NdnVerif.C18.LemmasConv
 namespace Ndn.C18
 
 /-- the regenerated constant is the protocol's infinity metric -/
 theorem costInfinity_is_sixteen : inf = 16 := rfl
+
+/-! ### deterministic selection -/
+
+/-- `RibEntry.refresh` gives the same lowest / second-lowest costs and next hops for EVERY iteration
+    order of the cost map (Go map iteration is random). -/
+theorem refresh_order_independent (c c' : Costs) (p : c.Perm c') (nd : (c.map (·.1)).Nodup) :
+    refreshOf c = refreshOf c' :=
+  refreshOf_perm p nd
+
+example : refreshOf [(7, 3), (5, 3), (9, 2)] = refreshOf [(9, 2), (5, 3), (7, 3)] := by decide
+
+/-- ... and that result is the lexicographic minimum and second minimum of the finite (cost, hop)
+    pairs: equal costs are always resolved towards the smaller hop key. -/
+theorem refresh_is_lexicographic_top2 (c : Costs) (nd : (c.map (·.1)).Nodup) :
+    let b := refreshOf c
+    (∀ h k, (h, k) ∈ c → k < inf → lexLe b.low1 b.nh1 k h) ∧
+    (∀ h k, (h, k) ∈ c → k < inf → (h = b.nh1 ∧ k = b.low1) ∨ lexLe b.low2 b.nh2 k h) ∧
+    (b.low1 < inf → (b.nh1, b.low1) ∈ c) ∧
+    (b.low2 < inf → (b.nh2, b.low2) ∈ c ∧ b.nh2 ≠ b.nh1) ∧
+    b.low1 ≤ inf ∧ b.low2 ≤ inf := by
+  have t := refreshOf_top2 c nd
+  exact ⟨t.min1, t.min2, t.mem1, t.mem2, t.le1, t.le2⟩
+
+example : refreshOf [(7, 3), (5, 3), (9, 4)] = { low1 := 3, nh1 := 5, low2 := 3, nh2 := 7 } := by decide
+
+/-! ### advertisements never carry infinity -/
+
+/-- an event of a network history -/
+inductive Event where
+  | fetch (u w face : Nat)
+  | dead (u w : Nat)
+
+def Net.step (net : Net) : Event → Net
+  | .fetch u w face => match net.fetch u w face with
+    | some (net', _) => net'
+    | none => net
+  | .dead u w => match net.dead u w with
+    | some (net', _) => net'
+    | none => net
+
+def Net.exec (net : Net) (evs : List Event) : Net := evs.foldl Net.step net
+
+/-- the network right after every router started (`Router.Start` adds the router to its own RIB) -/
+def Net.start (ids : List Nat) : Net := ids.map Router.start
+
+theorem start_allWF (ids : List Nat) : (Net.start ids).AllWF := by
+  intro r hr
+  obtain ⟨id, _, rfl⟩ := List.mem_map.1 hr
+  exact (start_wf_cst id).1
+
+theorem step_allWF {net : Net} (wf : net.AllWF) (ev : Event) : (net.step ev).AllWF := by
+  cases ev with
+  | fetch u w face =>
+    simp only [Net.step]
+    cases hf : net.fetch u w face with
+    | none => exact wf
+    | some p => exact (fetch_sem wf (show net.fetch u w face = some (p.1, p.2) from hf)).1
+  | dead u w =>
+    simp only [Net.step]
+    cases hf : net.dead u w with
+    | none => exact wf
+    | some p => exact (dead_sem wf (show net.dead u w = some (p.1, p.2) from hf)).1
+
+theorem exec_allWF {net : Net} (wf : net.AllWF) (evs : List Event) : (net.exec evs).AllWF := by
+  induction evs generalizing net with
+  | nil => exact wf
+  | cons ev t ih => exact ih (step_allWF wf ev)
+
+/-- For any set of routers, after ANY history of exchanges (any pairs, any order, any faces) and
+    dead-neighbour events, no advertisement lists a destination whose best cost is at or above the
+    infinity metric 16; every listed entry is the router's current best selection. -/
+theorem advert_never_infinite (ids : List Nat) (evs : List Event) (u : Nat) :
+    ∀ a ∈ ((Net.start ids).exec evs).advertOf u, a.cost < 16 := by
+  intro a ha
+  have := (advert_mem (exec_allWF (start_allWF ids) evs) ha).2.2
+  exact this
+
+example : ((Net.start [11, 22, 33]).exec [.fetch 0 1 2, .fetch 1 0 1, .fetch 2 1 2, .dead 1 0, .fetch 2 1 2]).advertOf 2
+    = [⟨33, 33, 0, 16⟩, ⟨22, 22, 1, 16⟩] := by decide
+
+/-! ### fixed points are the shortest paths -/
+
+/-- In ANY network state that fits topology `g` (any graph, any number of routers) and is a fixed
+    point of all exchanges along its links: for every pair at hop distance `k < 16`, the router's best
+    cost is exactly `k`; if `k ≥ 1` its chosen next hop is a neighbour at distance `k-1` (so it lies on
+    a shortest path), namely the one with the smallest key among all such neighbours (the tie-break
+    depends on the topology only). -/
+theorem fixed_point_is_shortest_path (g : Graph) (net : Net) (ok : NetOK g net) (fp : IsFixedPoint g net)
+    (u v k : Nat) (hul : u < net.length) (hvl : v < net.length) (hd : IsDist g u v k) (hk : k < 16) :
+    net.best u (net.idOf v) = k ∧
+    (1 ≤ k → ∃ w, g.adj u w ∧ net.nextHop u (net.idOf v) = net.idOf w ∧ IsDist g w v (k - 1) ∧
+      ∀ w', g.adj u w' → IsDist g w' v (k - 1) → net.idOf w ≤ net.idOf w') := by
+  have sh := fp_sh ok fp
+  have hk' : k < inf := hk
+  obtain ⟨h0, hK0⟩ := upper ok sh k u v hd hk' hul hvl
+  obtain ⟨hmin, _, hatt⟩ := best_spec ok.wf u (net.idOf v)
+  have hb : net.best u (net.idOf v) = k := by
+    have h1 := hmin h0
+    have hlt : net.best u (net.idOf v) < inf := by omega
+    obtain ⟨hnh, _⟩ := hatt hlt
+    rcases ge_dist ok sh hd hvl (net.nextHop u (net.idOf v)) with h | h <;> omega
+  refine ⟨hb, ?_⟩
+  intro h1
+  obtain ⟨hnh, htie⟩ := hatt (by omega)
+  rw [hb] at hnh htie
+  obtain ⟨v', hvl', hvd', hcase⟩ := lower ok sh k u (net.idOf v) _ hnh hk'
+  have hv : v' = v := ok.idInj v' v hvl' hvl hvd'
+  subst hv
+  rcases hcase with ⟨_, _, hz⟩ | ⟨w, ha, hid, _, hr⟩
+  · omega
+  · have hkk : k = (k - 1) + 1 := by omega
+    have hdw : IsDist g w v' (k - 1) := dist_step ha (hkk ▸ hd) hr
+    refine ⟨w, ha, hid, hdw, ?_⟩
+    intro w' ha' hdw'
+    have hwl' := (ok.adjValid u w' ha').2.1
+    have hex := upper ok sh (k - 1) w' v' hdw' (by omega) hwl' hvl
+    have := via_neighbor ok sh ha' (hkk ▸ hd) hdw' hvl (by omega) hex
+    rw [← hid]
+    exact htie _ (by omega)
+
+/-- ... and a destination that cannot be reached in `g` is not listed at all (withdrawn, not lingering). -/
+theorem fixed_point_unreachable_withdrawn (g : Graph) (net : Net) (ok : NetOK g net) (fp : IsFixedPoint g net)
+    (u v : Nat) (hvl : v < net.length) (hun : ∀ k, ¬ Reach g k u v) :
+    ∀ a ∈ net.advertOf u, a.dest ≠ net.idOf v := by
+  intro a ha hdest
+  have sh := fp_sh ok fp
+  obtain ⟨hc, _, hfin⟩ := advert_mem ok.wf ha
+  obtain ⟨_, _, hatt⟩ := best_spec ok.wf u a.dest
+  obtain ⟨hnh, _⟩ := hatt (by omega)
+  obtain ⟨v', hvl', hvd', hr⟩ := lower_reach ok sh hnh (by omega)
+  have : v' = v := ok.idInj v' v hvl' hvl (hvd'.trans hdest)
+  subst this
+  exact hun _ hr
+
+/-! ### convergence from any state -/
+
+/-- From ANY network state that fits topology `g` (in particular the state left behind by any
+    sequence of link / router losses once the dead neighbours have been removed, or a freshly started
+    network), EVERY schedule of exchanges along the links of `g` that consists of at least 16 fair
+    rounds (each round contains every link at least once, in any order, with any repetitions) ends in
+    a state that fits `g` and is a fixed point of all exchanges — hence, by
+    `fixed_point_is_shortest_path`, costs are the hop distances, next hops lie on shortest paths, and
+    unreachable destinations are withdrawn. 16 = the infinity metric; the bound does not depend on the
+    number of routers. -/
+theorem converges_within_rounds (g : Graph) (net : Net) (ok : NetOK g net)
+    (rounds : List (List Exchange)) (hal : ∀ r ∈ rounds, Along g r) (hcov : ∀ r ∈ rounds, Covers g r)
+    (hn : 16 ≤ rounds.length) :
+    NetOK g (net.run rounds.flatten) ∧ IsFixedPoint g (net.run rounds.flatten) :=
+  converges ok rounds hal hcov hn
+
+/-! ### non-vacuity: a concrete network meets every hypothesis above -/
+
+/-- 4 routers: triangle 0-1-2 with tail 2-3 -/
+def exRound : List Exchange := [(0, 1), (1, 0), (1, 2), (2, 1), (0, 2), (2, 0), (2, 3), (3, 2)]
+def exGraph : Graph := { adj := fun u w => (u, w) ∈ exRound }
+def exIds : List Nat := [40, 10, 30, 20]
+
+theorem exGraph_valid : ∀ u w, exGraph.adj u w → u < exIds.length ∧ w < exIds.length ∧ u ≠ w := by
+  intro u w h
+  simp only [exGraph, exRound, List.mem_cons, Prod.mk.injEq, List.mem_nil_iff, or_false] at h
+  rcases h with ⟨rfl, rfl⟩ | ⟨rfl, rfl⟩ | ⟨rfl, rfl⟩ | ⟨rfl, rfl⟩ | ⟨rfl, rfl⟩ | ⟨rfl, rfl⟩ | ⟨rfl, rfl⟩ | ⟨rfl, rfl⟩ <;> decide
+
+/-- the freshly started network fits the topology (hypothesis of `converges_within_rounds`) ... -/
+theorem exStart_ok : NetOK exGraph (Net.start exIds) :=
+  start_ok exGraph exIds (by decide) exGraph_valid
+
+/-- ... 16 fair rounds reach a state meeting the hypotheses of `fixed_point_is_shortest_path` -/
+example : ∃ net, NetOK exGraph net ∧ IsFixedPoint exGraph net :=
+  ⟨_, converges_within_rounds exGraph (Net.start exIds) exStart_ok (List.replicate 16 exRound)
+    (fun r hr e he => by rw [List.eq_of_mem_replicate hr] at he; exact he)
+    (fun r hr u w ha => by rw [List.eq_of_mem_replicate hr]; exact ha)
+    (by simp)⟩
+
+/-- router 3 (key 20) reaches router 0 (key 40) at cost 2 via router 2 (key 30); router 0 reaches
+    router 2 directly although router 1 has the smaller key (cost decides before the key) -/
+example : let net := (Net.start exIds).run (exRound ++ exRound ++ exRound)
+    (net.best 3 40, net.nextHop 3 40, net.best 0 30, net.nextHop 0 30) = (2, 30, 1, 30) := by decide
 
 end Ndn.C18
